@@ -830,6 +830,13 @@ def _print(interp, args, kwargs, node, frame):
 def _round(interp, args, kwargs, node, frame):
     if all(is_num(a) for a in args):
         return round(*args)
+    if len(args) == 1 and is_z3(args[0]):
+        # round() to an integer: some integer within one half (ties to even are not distinguished: either neighbour is allowed at a tie)
+        x = to_real(args[0])
+        r = interp.run.fresh_int("rounded")
+        interp.run._add(z3.And(z3.ToReal(r) - x <= z3.RealVal("1/2"), x - z3.ToReal(r) <= z3.RealVal("1/2")))
+        interp.run.__dict__.setdefault("round_log", []).append((r, x))
+        return r
     raise Unsupported("round() of a symbolic value", node)
 
 
